@@ -19,6 +19,7 @@ RULE = ('source port trees to depth 3 over names {a, ab, abc, b, x} (so names ar
         'two levels) x namespace-option overrides x pre-existing destination ports, for inputs and outputs; quick enumerates all single rules '
         'and all rule pairs of 40 trees, thorough 600 trees; distinct by (tree, rules, target, options); non-trivial when the rule set '
         'selects a strict subset')
+RULE += ('; also: empty namespaces, a reused options dictionary, targets below existing namespaces, a second narrower exposure of the same class, a destination port under the name of an excluded source port')
 ASSUMPTIONS = ['an empty include list is treated by the code as "no filter" and is outside the quantifier', 'reference model written from the property statement']
 REQUIRED = ['exposes', 'include_cases', 'exclude_cases', 'prefix_sibling_cases', 'nested_rule_cases', 'attr_checks', 'mutation_probes', 'both_rejected',
             'namespace_option_cases', 'preexisting_kept', 'options_reused', 're_exposures', 'own_port_under_excluded_name']
